@@ -1,0 +1,21 @@
+//go:build verif
+
+package render
+
+// Verification hooks (build tag verif): expose private paginator state unchanged.
+
+func (pg *Page) VerifJoinSink(sinkValues []string, remaining uint32, menuSizes [4]uint32) (string, uint16, error) {
+	return pg.joinSink(sinkValues, remaining, menuSizes)
+}
+
+func (szr *Sizer) VerifCursors() []uint32 {
+	r := make([]uint32, len(szr.crsrs))
+	copy(r, szr.crsrs)
+	return r
+}
+
+func (szr *Sizer) VerifSink() string { return szr.sink }
+
+func (szr *Sizer) VerifSetSink(s string) { szr.sink = s }
+
+func (pg *Page) VerifSizer() *Sizer { return pg.sizer }
